@@ -9,6 +9,7 @@ import (
 	"fmt"
 	"hash"
 	"io"
+	"runtime"
 	"sort"
 	"strings"
 	"sync/atomic"
@@ -372,6 +373,12 @@ func (s *Sim) decorateSender(n *SendNode, c *clientApp) *senderDeco {
 // action index is assigned when the scheduler releases the gate.
 func (d *senderDeco) act(label, key string, network bool) {
 	s := d.s
+	if d.n.isDead() {
+		// a crashed sender's goroutines end at their next action; whether they
+		// get there at all races with the (stopped) broker noticing the stop,
+		// so they must not leave an observation behind
+		runtime.Goexit()
+	}
 	s.observe("want %s %s", label, key)
 	s.park(d.n, label, key, func() {
 		d.n.actions++
